@@ -55,7 +55,7 @@ def run_diff(args):
         mod, ctx = analyse(prop, root, "quick", sources=src)
     except Exception as ex:  # pragma: no cover
         return ("error", [f"{type(ex).__name__}: {ex}"], [])
-    new_ = added(prop, ctx.results)          # judged by what the diff adds to the reports on the bare corpus snapshot
+    new_ = added(prop, ctx.results, os.path.dirname(path) if os.path.basename(path) == "patch.diff" else path)          # judged by what the diff adds to the reports on the bare corpus snapshot
     viol = [(r.rule, r.func, r.construct[:120]) for r in new_ if r.status == VIOLATION]
     unk = [(r.rule, r.func, r.construct[:120], r.msg[:120]) for r in new_ if r.status == UNKNOWN]
     return ("ok", viol, unk)
